@@ -5,12 +5,15 @@ CONSTANTS
   BeamPos = {5}
   Phases <- MC_PhasesQ
   Ratios <- MC_RatiosQ
+  MinPulses = 1
   MaxPulses = 3
   MaxTurns = 12
+  Again = FALSE
   Pick = 0
   Bug = "nowrap"
 INVARIANT TypeOK
 INVARIANT RejectedIffOverlap
+INVARIANT ValidationIgnoresListingOrder
 INVARIANT RefusedIffOutOfPhase
 INVARIANT OpenBeforeClose
 INVARIANT MaximalOpen
